@@ -405,6 +405,19 @@ theorem queries_are_functions_of_the_list {s : Seq} (h : Reachable s) :
   obtain ⟨r, h1, h2, _⟩ := getNodes_spec h.wf
   exact ⟨r, h1, h2⟩
 
+/-- **The index is unobservable state**: two reachable sequences holding the same list (whatever histories led there —
+different bucket orders included) answer `index`, `in` and `get_nodes` identically and `find` with the same items. -/
+theorem same_list_same_answers {s t : Seq} (hs : Reachable s) (ht : Reachable t) (h : s.items = t.items) :
+    (∀ x, index s x = index t x) ∧ (∀ x, contains s x = contains t x) ∧
+    (∀ n, ∃ r r', find s n = .ok r ∧ find t n = .ok r' ∧ r.items.Perm r'.items) ∧
+    (∃ r r', getNodes s = .ok r ∧ getNodes t = .ok r' ∧ r.items = r'.items) := by
+  obtain ⟨i1, c1, ⟨g1, hg1, hg1'⟩, f1⟩ := queries_are_functions_of_the_list hs
+  obtain ⟨i2, c2, ⟨g2, hg2, hg2'⟩, f2⟩ := queries_are_functions_of_the_list ht
+  refine ⟨fun x => by rw [i1, i2, h], fun x => by rw [c1, c2, h], fun n => ?_, ⟨g1, g2, hg1, hg2, by rw [hg1', hg2', h]⟩⟩
+  obtain ⟨r, hr, pr⟩ := f1 n
+  obtain ⟨r', hr', pr'⟩ := f2 n
+  exact ⟨r, r', hr, hr', pr.trans (by rw [h]; exact pr'.symm)⟩
+
 /-- **No partial update**: an operation that is refused — rule broken, index out of range, slice and values of
 different length, step 0, absent item, not a content item, position not an int — leaves list AND index exactly as
 they were; only the `extend` family keeps what it appended before the offender (`extend_enforces`). -/
@@ -553,6 +566,10 @@ example :
     let p := apoolRun (start s0) [.deepcopy 0, .copy 0, .base (.on 0 (.append (it 0 3)))]
     (view p).map (fun s => s.items.map (·.uid)) = [[1, 2, 3], [1, 2], [1, 2, 3]] ∧
     (view p).map (fun s => (s.lut 0).map (·.obj)) = [[1, 3], [2000001], [1, 3]] := by decide
+/-- two histories to the same list with different bucket orders (append then insert in front / the other way round) -/
+example : (run s0 [.append (it 0 3), .insert 0 (it 0 4)]).items = (run s0 [.insert 0 (it 0 4), .append (it 0 3)]).items ∧
+    ((run s0 [.append (it 0 3), .insert 0 (it 0 4)]).lut 0).map (·.uid) = [1, 3, 4] ∧
+    ((run s0 [.insert 0 (it 0 4), .append (it 0 3)]).lut 0).map (·.uid) = [1, 4, 3] := by decide
 example : Reachable s0 := Reachable.ctor (items := [it 0 1, it 1 2]) (r := false) (sr := true) rfl
 
 end Round2Examples
